@@ -11,6 +11,10 @@
 //! alignment) residual i == the mode-specific distance of transform * point i to the reference, recomputed by brute force
 //! over all triangles / segments (any of the nearest faces / edges where the closest point is on an edge / vertex), and
 //! the residual sum of squares is not larger than at the starting guess.
+//! ROUND 2 (run3_round2 / run2_round2, same clauses through eval3 / eval2): starting guesses with large rotations (3D:
+//! euler parameters near +-pi and +-pi/2, incl. parameters that cross +-pi during the solve; 2D: part turned by 90..180
+//! degrees either way), far-away parts (10x .. 100x the part size, guess within 0.2 units / 3 degrees, both modes),
+//! exactly representable configurations whose solve ends on residuals that are exactly 0.0, sample sets of >= 4096 points.
 use super::Report;
 use crate::common::DistMode;
 use crate::geom2::align2::points_to_curve;
@@ -252,9 +256,249 @@ fn run2(r: &mut Report) {
     }
 }
 
+
+// ---------------------------------------------------------------------------------------------- round 2: shared clause evaluation
+/// all clauses of one 3D alignment; `total` = displacement of the samples (pts = total * base); recovery is only demanded
+/// when `recover` (sample set exactly on the mesh, displacement / guess inside the stated basin)
+fn eval3(r: &mut Report, t: &[[Point3; 3]], mesh: &Mesh, pts: &[Point3], total: &Iso3, guess: &Iso3, to_point: bool, recover: bool, d: &dyn Fn() -> String) -> Option<(Iso3, Vec<f64>)> {
+    r.case();
+    let mode = if to_point { DistMode::ToPoint } else { DistMode::ToPlane };
+    let al = match points_to_mesh(pts, mesh, guess, mode) {
+        Ok(a) => a,
+        Err(_) => { if recover { r.check(false, "3D: alignment of a displacement inside the basin succeeds", d); } return None; }
+    };
+    if recover {
+        let e = id_err3(&(al.transform() * total));
+        r.check(e < 1e-6, "3D: returned transform composed with the displacement is the identity within 1e-6", || format!("{}: max |entry of transform*displacement - I| = {:?}", d(), e));
+    }
+    r.check(al.residuals().len() == pts.len(), "3D: one residual per input point", d);
+    if al.residuals().len() != pts.len() { return None; }
+    let mut ok = true;
+    let mut worst = (0usize, 0.0, 0.0);
+    for (i, p) in pts.iter().enumerate() {
+        let (dist, planes) = mesh_residuals(t, &(al.transform() * p));
+        let got = al.residuals()[i];
+        let fine = if to_point { near(got, dist) } else { planes.iter().any(|x| near(got, *x)) };
+        if !fine && ok { ok = false; worst = (i, got, if to_point { dist } else { planes[0] }); }
+    }
+    r.check(ok, "3D: residual i is the mode-specific distance of (returned transform * input point i) to the mesh", || format!("{}: residual[{}] = {:?}, recomputed {:?}", d(), worst.0, worst.1, worst.2));
+    let end: f64 = al.residuals().iter().map(|x| x * x).sum();
+    let start = rss3(t, pts, guess, to_point);
+    r.check(end <= start + 1e-12 * (1.0 + start), "3D: the residual sum of squares is not larger than at the starting guess", || format!("{}: start {:?} end {:?}", d(), start, end));
+    Some((*al.transform(), al.residuals().to_vec()))
+}
+fn eval2(r: &mut Report, v: &[Point2], curve: &Curve2, pts: &[Point2], total: &Iso2, guess: &Iso2, recover: bool, d: &dyn Fn() -> String) -> Option<(Iso2, Vec<f64>)> {
+    r.case();
+    let al = match points_to_curve(pts, curve, guess) {
+        Ok(a) => a,
+        Err(_) => { if recover { r.check(false, "2D: alignment of a displacement inside the basin succeeds", d); } return None; }
+    };
+    if recover {
+        let e = id_err2(&(al.transform() * total));
+        r.check(e < 1e-6, "2D: returned transform composed with the displacement is the identity within 1e-6", || format!("{}: max |entry of transform*displacement - I| = {:?}", d(), e));
+    }
+    r.check(al.residuals().len() == pts.len(), "2D: one residual per input point", d);
+    if al.residuals().len() != pts.len() { return None; }
+    let mut ok = true;
+    let mut worst = (0usize, 0.0, 0.0);
+    for (i, q) in pts.iter().enumerate() {
+        let want = curve_residuals(v, &(al.transform() * q));
+        let got = al.residuals()[i];
+        if !want.iter().any(|x| near(got, *x)) && ok { ok = false; worst = (i, got, want[0]); }
+    }
+    r.check(ok, "2D: residual i is the signed distance of (returned transform * input point i) to the curve along the edge normal", || format!("{}: residual[{}] = {:?}, recomputed {:?}", d(), worst.0, worst.1, worst.2));
+    let end: f64 = al.residuals().iter().map(|x| x * x).sum();
+    let start: f64 = pts.iter().map(|q| { let w = curve_residuals(v, &(guess * q)); let x = w.iter().map(|x| x.abs()).fold(0.0, f64::max); x * x }).sum();
+    r.check(end <= start + 1e-12 * (1.0 + start), "2D: the residual sum of squares is not larger than at the starting guess", || format!("{}: start {:?} end {:?}", d(), start, end));
+    Some((*al.transform(), al.residuals().to_vec()))
+}
+fn box_tris(mesh: &Mesh) -> Vec<[Point3; 3]> { mesh.faces().iter().map(|f| [mesh.vertices()[f[0] as usize], mesh.vertices()[f[1] as usize], mesh.vertices()[f[2] as usize]]).collect() }
+fn rot3(axis: (f64, f64, f64), angle: f64) -> Iso3 { Iso3::from_parts(Translation3::new(0.0, 0.0, 0.0), UnitQuaternion::from_axis_angle(&crate::geom3::UnitVec3::new_normalize(Vector3::new(axis.0, axis.1, axis.2)), angle)) }
+/// the rotation engeom's parameter block stands for: Rx(roll) * Ry(pitch) * Rz(yaw)
+fn wpr(t: (f64, f64, f64), e: (f64, f64, f64)) -> Iso3 {
+    let q = UnitQuaternion::from_euler_angles(e.0, 0.0, 0.0) * UnitQuaternion::from_euler_angles(0.0, e.1, 0.0) * UnitQuaternion::from_euler_angles(0.0, 0.0, e.2);
+    Iso3::from_parts(Translation3::new(t.0, t.1, t.2), q)
+}
+
+// ---------------------------------------------------------------------------------------------- round 2: 3D
+/// dense grid on the six faces of the 4x3x2 box: n x n points per face, margin 1/64 from the edges (dyadic margin)
+fn box_grid(n: usize) -> Vec<Point3> {
+    let (w, h, d) = (4.0, 3.0, 2.0);
+    let m = 0.015625;
+    let f = |k: usize, len: f64| m + (len - 2.0 * m) * k as f64 / (n - 1) as f64;
+    let mut pts = vec![];
+    for i in 0..n { for j in 0..n {
+        pts.push(Point3::new(f(i, w), f(j, h), 0.0)); pts.push(Point3::new(f(i, w), f(j, h), d));
+        pts.push(Point3::new(f(i, w), 0.0, f(j, d))); pts.push(Point3::new(f(i, w), h, f(j, d)));
+        pts.push(Point3::new(0.0, f(i, h), f(j, d))); pts.push(Point3::new(w, f(i, h), f(j, d)));
+    } }
+    pts
+}
+
+fn run3_round2(r: &mut Report) {
+    let mesh = Mesh::create_box(4.0, 3.0, 2.0, false);
+    let t = box_tris(&mesh);
+    let (clean, _) = box_samples();
+    let meas = measured3();
+    let deg = std::f64::consts::PI / 180.0;
+    let pi = std::f64::consts::PI;
+    let modes = [false, true];
+    let mname = |tp: bool| if tp { "ToPoint" } else { "ToPlane" };
+
+    // (1) starting guesses with large rotations: roll / pitch / yaw near +-pi and +-pi/2.  The samples are moved so that the
+    // exact answer is D * G for a small D (translation <= 0.05, rotation <= 0.05 rad = 2.9 degrees): with D = Rx(+-0.05) /
+    // Rz(+-0.05) on a guess of roll / yaw +-(pi - 0.02) the euler parameter has to cross +-pi during the solve
+    let guesses: Vec<(&str, Iso3)> = vec![
+        ("roll pi-0.02: (3,-2,1) Rx(pi-0.02)", wpr((3.0, -2.0, 1.0), (pi - 0.02, 0.0, 0.0))),
+        ("roll -(pi-0.02): (3,-2,1) Rx(-pi+0.02)", wpr((3.0, -2.0, 1.0), (-pi + 0.02, 0.0, 0.0))),
+        ("yaw pi-0.02: (-1,0.5,2) Rz(pi-0.02)", wpr((-1.0, 0.5, 2.0), (0.0, 0.0, pi - 0.02))),
+        ("yaw -(pi-0.02): (-1,0.5,2) Rz(-pi+0.02)", wpr((-1.0, 0.5, 2.0), (0.0, 0.0, -pi + 0.02))),
+        ("roll exactly pi: (0,1,0) Rx(pi)", wpr((0.0, 1.0, 0.0), (pi, 0.0, 0.0))),
+        ("yaw exactly -pi: (0,0,1) Rz(-pi)", wpr((0.0, 0.0, 1.0), (0.0, 0.0, -pi))),
+        ("pitch pi-0.02 (decodes to roll pi, yaw pi): (1,1,1) Ry(pi-0.02)", wpr((1.0, 1.0, 1.0), (0.0, pi - 0.02, 0.0))),
+        ("roll pi/2, yaw -pi/2: (2,0,-1) Rx(pi/2) Rz(-pi/2)", wpr((2.0, 0.0, -1.0), (FRAC_PI_2, 0.0, -FRAC_PI_2))),
+        ("roll -pi/2, pitch 1.4, yaw pi/2: (0,-3,0.5) Rx(-pi/2) Ry(1.4) Rz(pi/2)", wpr((0.0, -3.0, 0.5), (-FRAC_PI_2, 1.4, FRAC_PI_2))),
+        ("roll 3.1, pitch -1.0, yaw -3.1: (1,2,3) Rx(3.1) Ry(-1) Rz(-3.1)", wpr((1.0, 2.0, 3.0), (3.1, -1.0, -3.1))),
+        ("roll -3.0, pitch 0.5, yaw 3.0: (-2,1,0) Rx(-3) Ry(0.5) Rz(3)", wpr((-2.0, 1.0, 0.0), (-3.0, 0.5, 3.0))),
+    ];
+    let smalls: Vec<(&str, Iso3)> = vec![
+        ("identity", Iso3::identity()),
+        ("translation (0.05,-0.03,0.04)", iso3((0.05, -0.03, 0.04), (0.0, 0.0, 0.0))),
+        ("Rx(+0.05)", rot3((1.0, 0.0, 0.0), 0.05)),
+        ("Rx(-0.05)", rot3((1.0, 0.0, 0.0), -0.05)),
+        ("Rz(+0.05) + (0.02,0.01,-0.03)", Iso3::from_parts(Translation3::new(0.02, 0.01, -0.03), rot3((0.0, 0.0, 1.0), 0.05).rotation)),
+        ("Rz(-0.05)", rot3((0.0, 0.0, 1.0), -0.05)),
+        ("Ry(+0.05)", rot3((0.0, 1.0, 0.0), 0.05)),
+        ("3 degrees about (1,1,1)", rot3((1.0, 1.0, 1.0), 3.0 * deg)),
+    ];
+    for (set, base) in [("A: on the faces", &clean), ("B: measured", &meas)] {
+        for (gn, guess) in guesses.iter() { for (sn, small) in smalls.iter() {
+            // exact answer C = small * guess; the samples are C^-1 * base
+            let total = (small * guess).inverse();
+            let pts: Vec<Point3> = base.iter().map(|p| total * p).collect();
+            for to_point in modes {
+                let d = || format!("3D box 4x3x2, sample set {}, samples moved by (D*G)^-1 with D = {}, starting guess G = {}, mode {}", set, sn, gn, mname(to_point));
+                eval3(r, &t, &mesh, &pts, &total, guess, to_point, set.starts_with('A'), &d);
+            }
+        } }
+    }
+
+    // (2) far-away parts: the samples sit 10x .. 100x the part size (4) away, the guess brings them back to within 0.2 units
+    // and 3 degrees of the answer
+    let fars: Vec<(&str, Iso3)> = vec![
+        ("(40,-30,20) + axis-angle (0.3,-0.2,0.4)", Iso3::new(Vector3::new(40.0, -30.0, 20.0), Vector3::new(0.3, -0.2, 0.4))),
+        ("(100,-50,30) + axis-angle (0.3,-0.2,0.4)", Iso3::new(Vector3::new(100.0, -50.0, 30.0), Vector3::new(0.3, -0.2, 0.4))),
+        ("(-400,300,200), no rotation", Iso3::new(Vector3::new(-400.0, 300.0, 200.0), Vector3::zeros())),
+        ("(250,0,-400) + axis-angle (-1.0,0.5,2.0)", Iso3::new(Vector3::new(250.0, 0.0, -400.0), Vector3::new(-1.0, 0.5, 2.0))),
+    ];
+    let offs: Vec<(&str, Iso3)> = vec![
+        ("(0.2,-0.1,0.15) + axis-angle (0.03,0.02,-0.03)", Iso3::new(Vector3::new(0.2, -0.1, 0.15), Vector3::new(0.03, 0.02, -0.03))),
+        ("(-0.1,0.15,0.05) + axis-angle (-0.02,0.04,0.01)", Iso3::new(Vector3::new(-0.1, 0.15, 0.05), Vector3::new(-0.02, 0.04, 0.01))),
+    ];
+    for (set, base) in [("A: on the faces", &clean), ("B: measured", &meas)] {
+        for (fn_, far) in fars.iter() { for (on, off) in offs.iter() {
+            let pts: Vec<Point3> = base.iter().map(|p| far * p).collect();
+            let guess = off * far.inverse();
+            for to_point in modes {
+                let d = || format!("3D box 4x3x2, sample set {}, far-away displacement {}, starting guess = ({}) * displacement^-1, mode {}", set, fn_, on, mname(to_point));
+                eval3(r, &t, &mesh, &pts, far, &guess, to_point, set.starts_with('A'), &d);
+            }
+        } }
+    }
+
+    // (3) exactly representable configurations: dyadic sample coordinates on axis-parallel faces, pure dyadic translations,
+    // identity / pure dyadic translation guesses (one solver step can land on residuals that are exactly zero: on the
+    // reference build 6 of these ToPlane cases and 2 of the far-away ones end with all residuals == 0.0)
+    for (sx, sy, sz) in [(0.25, -0.5, 0.125), (-0.125, 0.25, 0.0), (0.5, 0.5, 0.5), (0.0, 0.0, 0.375), (0.0625, 0.0, 0.0)] {
+        for (gx, gy, gz) in [(0.0, 0.0, 0.0), (-0.125, 0.25, -0.0625), (-256.0, 128.0, 64.0)] {
+            // the samples are displaced by the translation s - g, the guess is the translation g (the answer is g - s)
+            let total = iso3((sx - gx, sy - gy, sz - gz), (0.0, 0.0, 0.0));
+            let guess = iso3((gx, gy, gz), (0.0, 0.0, 0.0));
+            let pts: Vec<Point3> = clean.iter().map(|p| total * p).collect();
+            for to_point in modes {
+                let d = || format!("3D box 4x3x2, sample set A: on the faces, exactly representable translation ({:?},{:?},{:?}), guess translation ({:?},{:?},{:?}), mode {}", sx - gx, sy - gy, sz - gz, gx, gy, gz, mname(to_point));
+                eval3(r, &t, &mesh, &pts, &total, &guess, to_point, true, &d);
+            }
+        }
+    }
+
+    // (4) a large sample set (4374 >= 4096 points): 27 x 27 grid per face up to 1/64 from the edges
+    let grid = box_grid(27);
+    let total = iso3((0.2, -0.15, 0.1), (0.03, -0.02, 0.04));
+    let pts: Vec<Point3> = grid.iter().map(|p| total * p).collect();
+    for to_point in modes {
+        let d = || format!("3D box 4x3x2, 4374 samples (27x27 grid per face, 1/64 from the edges), displacement (0.2,-0.15,0.1) + euler (0.03,-0.02,0.04), guess identity, mode {}", mname(to_point));
+        eval3(r, &t, &mesh, &pts, &total, &Iso3::identity(), to_point, true, &d);
+    }
+}
+
+// ---------------------------------------------------------------------------------------------- round 2: 2D
+fn run2_round2(r: &mut Report) {
+    let p = |x: f64, y: f64| Point2::new(x, y);
+    let shapes: Vec<(&str, Vec<Point2>)> = vec![
+        ("closed L outline (0,0),(6,0),(6,2),(3,2),(3,4),(0,4)", vec![p(0.0, 0.0), p(6.0, 0.0), p(6.0, 2.0), p(3.0, 2.0), p(3.0, 4.0), p(0.0, 4.0), p(0.0, 0.0)]),
+        ("closed rectangle 4x3", vec![p(0.0, 0.0), p(4.0, 0.0), p(4.0, 3.0), p(0.0, 3.0), p(0.0, 0.0)]),
+    ];
+    let deg = std::f64::consts::PI / 180.0;
+    let offs: Vec<(&str, Iso2)> = vec![
+        ("identity", Iso2::identity()),
+        ("(0.05,-0.04) + 3 degrees", Iso2::new(Vector2::new(0.05, -0.04), 3.0 * deg)),
+        ("(-0.03,0.02) - 2 degrees", Iso2::new(Vector2::new(-0.03, 0.02), -2.0 * deg)),
+    ];
+    for (sn, verts) in shapes.iter() {
+        let curve = Curve2::from_points(verts, 1e-8, true).unwrap();
+        let v = curve.points().to_vec();
+        for (set, dev) in [("A: on the outline", false), ("B: measured", true)] {
+            let base = outline_samples(&v, dev);
+            // (1) starting guesses with large rotations: the part is turned by 90 .. 180 degrees in either direction, the guess
+            // is the exact correction disturbed by at most (0.05, 0.04) and 3 degrees
+            for turn in [90.0, 120.0, 135.0, 170.0, 175.0, 180.0, -90.0, -120.0, -135.0, -170.0, -175.0] {
+                let disp = Iso2::new(Vector2::new(3.0, -2.0), turn * deg);
+                let pts: Vec<Point2> = base.iter().map(|q| disp * q).collect();
+                for (on, off) in offs.iter() {
+                    let guess = off * disp.inverse();
+                    let d = || format!("2D {}, sample set {}, part turned by {:?} degrees + (3,-2), starting guess = ({}) * displacement^-1", sn, set, turn, on);
+                    eval2(r, &v, &curve, &pts, &disp, &guess, !dev, &d);
+                }
+            }
+            // (2) far-away parts: 10x .. 100x the part size (6) away, the guess within 0.2 units and 3 degrees of the answer
+            for (fx, fy, fa) in [(60.0, -40.0, 0.3), (600.0, 400.0, -0.7), (-300.0, 50.0, 0.0), (0.0, 128.0, 2.5)] {
+                let disp = Iso2::new(Vector2::new(fx, fy), fa);
+                let pts: Vec<Point2> = base.iter().map(|q| disp * q).collect();
+                for (on, off) in [("(0.15,-0.1) + 3 degrees", Iso2::new(Vector2::new(0.15, -0.1), 3.0 * deg)), ("(-0.1,0.2) - 2 degrees", Iso2::new(Vector2::new(-0.1, 0.2), -2.0 * deg))] {
+                    let guess = off * disp.inverse();
+                    let d = || format!("2D {}, sample set {}, far-away displacement ({:?},{:?}) + {:?} rad, starting guess = ({}) * displacement^-1", sn, set, fx, fy, fa, on);
+                    eval2(r, &v, &curve, &pts, &disp, &guess, !dev, &d);
+                }
+            }
+        }
+        // (3) exactly representable configurations (axis-parallel outline, dyadic sample coordinates, pure dyadic translation,
+        // identity guess): one solver step can land on residuals that are exactly zero (on the reference build 4 of these
+        // 12 cases and 2 of the far-away ones end with all residuals == 0.0)
+        let base = outline_samples(&v, false);
+        for (sx, sy) in [(0.25, -0.5), (-0.125, 0.25), (0.5, 0.5), (0.0, 0.375), (0.0625, 0.0), (0.125, 0.125)] {
+            let disp = Iso2::translation(sx, sy);
+            let pts: Vec<Point2> = base.iter().map(|q| disp * q).collect();
+            let d = || format!("2D {}, sample set A: on the outline, exactly representable translation ({:?},{:?}), guess identity", sn, sx, sy);
+            eval2(r, &v, &curve, &pts, &disp, &Iso2::identity(), true, &d);
+        }
+    }
+    // (4) a large sample set (>= 4096 points): 700 points per edge of the L outline
+    let curve = Curve2::from_points(&shapes[0].1, 1e-8, true).unwrap();
+    let v = curve.points().to_vec();
+    let mut base = vec![];
+    for i in 0..v.len() - 1 { let ab = v[i + 1] - v[i]; for j in 1..=700 { base.push(v[i] + ab * (j as f64 / 701.0)); } }
+    let disp = Iso2::new(Vector2::new(0.05, 0.05), 3.0 * deg);
+    let pts: Vec<Point2> = base.iter().map(|q| disp * q).collect();
+    let d = || format!("2D {}, 4200 samples (700 per edge), displacement (0.05,0.05) + 3 degrees, guess identity", shapes[0].0);
+    eval2(r, &v, &curve, &pts, &disp, &Iso2::identity(), true, &d);
+}
+
 pub fn run() -> Option<Report> {
-    let mut r = Report::new("3D: box 4x3x2, sample sets A (54 points on the faces) and B (lifted 0.02..0.08 off the faces + 6 edge-closest points + 2 bit-identical repeats), 6 displacements (translations <= 0.05, rotations <= 3 degrees, one of size 3e-5) x 4 starting guesses (identity, small, pitch exactly -90 / +90 degrees plus roll) x {ToPlane, ToPoint}; 2D: closed L outline and 4x3 rectangle, sets A (7 points per edge) and B (offset -0.03..0.03 along the normal + 2 corner-closest points + 2 repeats), 6 displacements x 2 guesses; recovery tolerance 1e-6, residual tolerance 1e-9 relative");
+    let mut r = Report::new("3D: box 4x3x2, sample sets A (54 points on the faces) and B (lifted 0.02..0.08 off the faces + 6 edge-closest points + 2 bit-identical repeats), 6 displacements (translations <= 0.05, rotations <= 3 degrees, one of size 3e-5) x 4 starting guesses (identity, small, pitch exactly -90 / +90 degrees plus roll) x {ToPlane, ToPoint}; 2D: closed L outline and 4x3 rectangle, sets A (7 points per edge) and B (offset -0.03..0.03 along the normal + 2 corner-closest points + 2 repeats), 6 displacements x 2 guesses; ROUND 2 (same clauses, same shapes): starting guesses with large rotations - 3D: 11 guesses with roll / pitch / yaw near +-pi and +-pi/2 (roll and yaw +-(pi-0.02) with the answer at +-(pi+0.03) so that the euler parameter crosses +-pi during the solve, roll exactly pi, yaw exactly -pi, pitch pi-0.02, quarter turns, mixed) x 8 small corrections (<= 0.05 units, <= 0.05 rad) x both sample sets x both modes; 2D: part turned by +-90, +-120, +-135, +-170, +-175, 180 degrees x 3 guesses within (0.05, 3 degrees) of the correction; far-away parts - 3D: 4 displacements of 54 .. 540 units (10x .. 100x the part size) x 2 guesses within 0.2 units / 3 degrees x both modes, 2D: 4 displacements of 72 .. 720 units x 2 guesses; exactly representable configurations (dyadic samples, pure dyadic translations, identity / dyadic translation guesses; several end with all residuals exactly 0.0 after one solver step): 3D 5 x 3 x both modes, 2D 6 per shape; large sample sets: 3D 4374 points (27x27 grid per face up to 1/64 from the edges) in both modes, 2D 4200 points on the L outline; recovery tolerance 1e-6, residual tolerance 1e-9 relative");
     run3(&mut r);
     run2(&mut r);
+    run3_round2(&mut r);
+    run2_round2(&mut r);
     Some(r)
 }
